@@ -2032,6 +2032,182 @@ def _kind_keyword(tree: ast.Module) -> dict:
     return {'folded': folded, 'directives': directives, 'writer_ops': ops, 'kinds': [v for _, v in et_members]}
 
 
+# ------------------------------------------------------------------------------------------ helper argument lists (round 5)
+def _blank_test(test: ast.AST, var: str) -> str | None:
+    """A comprehension / loop condition on the piece `var`: 'stripped' = the piece is kept when it is non-blank after strip,
+    'raw' = when it is non-empty as it is.  None = not such a test."""
+    if isinstance(test, ast.Compare) and len(test.ops) == 1 and isinstance(test.comparators[0], ast.Constant) and test.comparators[0].value == '' \
+            and isinstance(test.ops[0], ast.NotEq):
+        test = test.left
+    elif (isinstance(test, ast.Compare) and len(test.ops) == 1 and isinstance(test.ops[0], (ast.Gt, ast.NotEq)) and isinstance(test.comparators[0], ast.Constant)
+          and test.comparators[0].value == 0 and isinstance(test.left, ast.Call) and _is(test.left.func, 'len') and len(test.left.args) == 1):
+        test = test.left.args[0]
+    if _is(test, var):
+        return 'raw'
+    if _is(test, f'{var}.strip()'):
+        return 'stripped'
+    return None
+
+
+def _split_source(it: ast.AST, tokv: str) -> str:
+    """`<tokv>.split(<sep>)` -> sep (one character)."""
+    if not (isinstance(it, ast.Call) and isinstance(it.func, ast.Attribute) and it.func.attr == 'split' and _is(it.func.value, tokv)
+            and len(it.args) == 1 and not it.keywords):
+        raise TranslateError(f'EntityDef.parse: helper arguments are not taken from {tokv}.split(<sep>): {ast.unparse(it)[:60]}')
+    sep = _const(it.args[0], str, 'split separator')
+    if len(sep) != 1:
+        raise TranslateError('EntityDef.parse: split separator is not one character')
+    return sep
+
+
+def _helper_args(tree: ast.Module) -> dict:
+    """EntityDef.parse, the `token is Token.PAREN_ARGS` branch: how the text between the parentheses becomes the argument list
+    (Fmt/FgdHead.v, paren_args_with): the separator, whether each piece is stripped, the FILTER of the comprehension / loop (none,
+    blank after strip, empty before it), whether `['']` is cleared afterwards; and that the list then reaches UnknownHelper(..),
+    HELPER_IMPL[..].parse(..) and the base() loop as it is.  EntityDef.export: the literals that join an argument list."""
+    fn = _normalise(_method(tree, 'EntityDef', 'parse'), tree)
+    branch: ast.If | None = None
+    tokv = ''
+    for loop in [n for n in ast.walk(fn) if isinstance(n, ast.For)]:
+        if not (isinstance(loop.target, ast.Tuple) and len(loop.target.elts) == 2 and all(isinstance(x, ast.Name) for x in loop.target.elts)):
+            continue
+        tkind, tval = (x.id for x in loop.target.elts)   # type: ignore[attr-defined]
+        for n in ast.walk(loop):
+            if isinstance(n, ast.If) and (_is(n.test, f'{tkind} is Token.PAREN_ARGS') or _is(n.test, f'{tkind} == Token.PAREN_ARGS')):
+                if branch is not None:
+                    raise TranslateError('EntityDef.parse: more than one PAREN_ARGS branch')
+                branch, tokv = n, tval
+    if branch is None:
+        raise TranslateError('EntityDef.parse: PAREN_ARGS branch not found')
+    body = list(branch.body)
+    # leading guards that only raise
+    while body and isinstance(body[0], ast.If) and not body[0].orelse and all(isinstance(x, ast.Raise) for x in body[0].body):
+        body = body[1:]
+    if not body:
+        raise TranslateError('EntityDef.parse: PAREN_ARGS branch is empty')
+    st = body[0]
+    strip, filt, sep, var_args = False, 'FKeep', ',', ''
+    rest_from = 1
+
+    def comp(value: ast.AST) -> tuple[str, bool, str]:
+        """[ELT for x in tokv.split(sep) if ...]  /  list(map(str.strip, tokv.split(sep)))  /  tokv.split(sep)"""
+        if isinstance(value, ast.ListComp) and len(value.generators) == 1 and isinstance(value.generators[0].target, ast.Name) and not value.generators[0].is_async:
+            g = value.generators[0]
+            x = g.target.id   # type: ignore[attr-defined]
+            sp = _split_source(g.iter, tokv)
+            if _is(value.elt, f'{x}.strip()'):
+                stp = True
+            elif _is(value.elt, x):
+                stp = False
+            else:
+                raise TranslateError(f'EntityDef.parse: helper argument expression not recognised: {ast.unparse(value.elt)[:60]}')
+            fl = 'FKeep'
+            for c in g.ifs:
+                k = _blank_test(c, x)
+                if k is None:
+                    raise TranslateError(f'EntityDef.parse: filter of the helper arguments not recognised: {ast.unparse(c)[:60]}')
+                fl = 'FDropStripped' if k == 'stripped' or fl == 'FDropStripped' else 'FDropRaw'
+            return sp, stp, fl
+        if isinstance(value, ast.Call) and _is(value.func, 'list') and len(value.args) == 1 and isinstance(value.args[0], ast.Call) \
+                and _is(value.args[0].func, 'map') and len(value.args[0].args) == 2 and _is(value.args[0].args[0], 'str.strip'):
+            return _split_source(value.args[0].args[1], tokv), True, 'FKeep'
+        if isinstance(value, ast.Call) and isinstance(value.func, ast.Attribute) and value.func.attr == 'split':
+            return _split_source(value, tokv), False, 'FKeep'
+        raise TranslateError(f'EntityDef.parse: helper argument list not recognised: {ast.unparse(value)[:80]}')
+
+    if isinstance(st, (ast.Assign, ast.AnnAssign)) and st.value is not None:
+        tgt = st.targets[0] if isinstance(st, ast.Assign) and len(st.targets) == 1 else getattr(st, 'target', None)
+        if not isinstance(tgt, ast.Name):
+            raise TranslateError('EntityDef.parse: the helper arguments are not bound to a local')
+        var_args = tgt.id
+        if isinstance(st.value, ast.List) and not st.value.elts and len(body) > 1 and isinstance(body[1], ast.For):
+            # args = []; for x in tokv.split(sep): [if c:] args.append(x.strip())
+            loop = body[1]
+            if not (isinstance(loop.target, ast.Name) and not loop.orelse):
+                raise TranslateError('EntityDef.parse: helper argument loop not recognised')
+            x = loop.target.id
+            sep = _split_source(loop.iter, tokv)
+            inner = loop.body
+            while len(inner) == 1 and isinstance(inner[0], ast.If) and not inner[0].orelse:
+                k = _blank_test(inner[0].test, x)
+                if k is None:
+                    raise TranslateError(f'EntityDef.parse: filter of the helper arguments not recognised: {ast.unparse(inner[0].test)[:60]}')
+                filt = 'FDropStripped' if k == 'stripped' or filt == 'FDropStripped' else 'FDropRaw'
+                inner = inner[0].body
+            if len(inner) == 1 and _is(inner[0], f'{var_args}.append({x}.strip())'):
+                strip = True
+            elif len(inner) == 1 and _is(inner[0], f'{var_args}.append({x})'):
+                strip = False
+            else:
+                raise TranslateError('EntityDef.parse: helper argument loop body not recognised')
+            rest_from = 2
+        else:
+            sep, strip, filt = comp(st.value)
+    else:
+        raise TranslateError(f'EntityDef.parse: the PAREN_ARGS branch does not start by binding the argument list: {ast.unparse(st)[:60]}')
+    a = var_args
+    clear = False
+    sole_tests = (f"len({a}) == 1 and {a}[0] == ''", f"{a} == ['']", f"len({a}) == 1 and not {a}[0]", f"{a}[0] == '' and len({a}) == 1",
+                  f"len({a}) == 1 and {a}[0] == ''", f"1 == len({a}) and {a}[0] == ''")
+    sole_bodies = (f'{a}.clear()', f'{a} = []', f'del {a}[:]', f'{a}.pop()', f'{a}[:] = []')
+    dispatch_seen = False
+    for st in body[rest_from:]:
+        names = {n.id for n in ast.walk(st) if isinstance(n, ast.Name)}
+        if a not in names:
+            continue
+        if isinstance(st, ast.If) and {n.id for n in ast.walk(st.test) if isinstance(n, ast.Name)} <= {a, 'len'}:
+            if dispatch_seen or clear or st.orelse or len(st.body) != 1 or not any(_is(st.test, t) for t in sole_tests) \
+                    or not any(_is(st.body[0], b) for b in sole_bodies):
+                raise TranslateError(f'EntityDef.parse: statement about the helper arguments not recognised: {ast.unparse(st)[:80]}')
+            clear = True
+            continue
+        if isinstance(st, ast.If):
+            # the dispatch chain: apart from the autovis() branch the list is only passed on as it is (call argument / loop iterable)
+            dispatch_seen = True
+            branches: list[tuple[ast.AST | None, list[ast.stmt]]] = []
+            node: ast.If | None = st
+            while node is not None:
+                branches.append((node.test, node.body))
+                if len(node.orelse) == 1 and isinstance(node.orelse[0], ast.If):
+                    node = node.orelse[0]
+                else:
+                    if node.orelse:
+                        branches.append((None, node.orelse))
+                    node = None
+            for test, blk_list in branches:
+                if test is not None and a in {n.id for n in ast.walk(test) if isinstance(n, ast.Name)}:
+                    raise TranslateError('EntityDef.parse: the dispatch of a helper depends on its arguments')
+                if test is not None and any(isinstance(n, ast.Attribute) and n.attr == 'EXT_AUTO_VISGROUP' for n in ast.walk(test)):
+                    continue
+                for blk in blk_list:
+                    parents = {id(c): p for p in ast.walk(blk) for c in ast.iter_child_nodes(p)}
+                    for n in ast.walk(blk):
+                        if isinstance(n, ast.Name) and n.id == a:
+                            par = parents.get(id(n))
+                            ok = isinstance(n.ctx, ast.Load) and ((isinstance(par, ast.Call) and n in par.args and (
+                                isinstance(par.func, ast.Attribute) or (isinstance(par.func, ast.Name) and (par.func.id[:1].isupper() or par.func.id == 'len'))))
+                                or (isinstance(par, ast.For) and par.iter is n))
+                            if not ok:
+                                raise TranslateError(f'EntityDef.parse: the helper arguments are changed on their way: {ast.unparse(par)[:80] if par else a}')
+            continue
+        raise TranslateError(f'EntityDef.parse: statement about the helper arguments not recognised: {ast.unparse(st)[:80]}')
+    if not dispatch_seen:
+        raise TranslateError('EntityDef.parse: no dispatch on the helper type after the argument list')
+    # writer: every `<literal>.join(..)` in EntityDef.export up to the write of the class name
+    exp = _normalise(_method(tree, 'EntityDef', 'export'), tree)
+    joiners: list[str] = []
+    for top in _body(exp):
+        if isinstance(top, ast.Expr) and isinstance(top.value, ast.Call) and _is(top.value.func, 'file.write') and any(
+                isinstance(n, ast.Attribute) and n.attr == 'classname' and _is(n.value, 'self') for n in ast.walk(top)):
+            break
+        for n in ast.walk(top):
+            if isinstance(n, ast.Call) and isinstance(n.func, ast.Attribute) and n.func.attr == 'join':
+                joiners.append(_const(n.func.value, str, 'joiner of an argument list'))
+    if len(joiners) < 2:
+        raise TranslateError('EntityDef.export: the joins of the base and helper argument lists were not found')
+    return {'sep': sep, 'strip': strip, 'filter': filt, 'clear_sole': clear, 'joiners': joiners}
+
+
 
 # ------------------------------------------------------------------------------------------ emit
 def _nlist(xs) -> str:
@@ -2063,13 +2239,14 @@ def translate() -> tuple[str, dict]:
     md = _multi_db(fgd_tree)
     tt = _type_text(fgd_tree)
     kk = _kind_keyword(fgd_tree)
+    ha = _helper_args(fgd_tree)
     for op in (wl['loop_op'], wl['nl_op']):
         if op not in OPS:
             raise TranslateError(f'comparison operator {op} not supported')
     ef = dict(db['ef_members'])
     lines = [
         '(* GENERATED by translate/c16_fgd.py from srctools/fgd.py, _engine_db.py, tokenizer.py, const.py. Do not edit. *)',
-        'From Coq Require Import List NArith String.', 'From SV Require Import Fmt.LongString Fmt.FgdLine Fmt.FgdTypeText SM.LazyDbMulti SM.FgdBlocks Fmt.FgdKindKw.',
+        'From Coq Require Import List NArith String.', 'From SV Require Import Fmt.LongString Fmt.FgdLine Fmt.FgdTypeText SM.LazyDbMulti SM.FgdBlocks Fmt.FgdKindKw Fmt.FgdHead.',
         'Import ListNotations.', 'Open Scope string_scope.',
         'Inductive cmp_op := OpGt | OpGe | OpLt | OpLe | OpEq | OpNe.',
         '(* tokenizer.ESCAPES as (symbol, character); characters escape_text() never escapes *)',
@@ -2128,6 +2305,9 @@ def translate() -> tuple[str, dict]:
         'Definition pf_directives : list (list N) := [' + '; '.join(_cstr(d) for d in kk['directives']) + '].',
         'Definition entity_kind_values : list (list N) := [' + '; '.join(_cstr(d) for d in kk['kinds']) + '].',
         'Definition kind_writer_ops : list wop := [' + '; '.join(o[1:-1] if o.startswith('(') else o for o in kk['writer_ops']) + '].',
+        '(* EntityDef.parse, PAREN_ARGS branch: split / strip / filter / clearing of [""] (Fmt/FgdHead.v); joiners of EntityDef.export *)',
+        f'Definition gen_args_cfg : args_cfg := mk_args_cfg {ord(ha["sep"])}%N {_b(ha["strip"])} {ha["filter"]} {_b(ha["clear_sole"])}.',
+        'Definition helper_arg_joiners : list (list N) := [' + '; '.join(_cstr(j) for j in ha['joiners']) + '].',
         '(* _engine_db.build_blocks: size tests by role, and where blocks without entities leave the list (SM/FgdBlocks.v); serialise *)',
         'Definition gen_bcfg : bcfg := {| merge_fits := %s; add_fits := %s; ovf_full := %s; drop_empty_before_leftovers := %s; '
         'drop_empty_after_leftovers := %s |}.' % (_CMP_FN[db['build_blocks']['merge_op']], _CMP_FN[db['build_blocks']['add_op']],
@@ -2141,7 +2321,7 @@ def translate() -> tuple[str, dict]:
     ]
     if wl['notfound'] < 0:
         raise TranslateError('not-found comparison value is negative')
-    side = dict(type_text=tt, kind_keyword=kk, multi_db=md, write_longstring=wl, fgd_escape=fe, text_writers=tw, tokenizer=tok_side, engine_db={k: v for k, v in db.items() if k != 'bits'},
+    side = dict(type_text=tt, kind_keyword=kk, helper_args=ha, multi_db=md, write_longstring=wl, fgd_escape=fe, text_writers=tw, tokenizer=tok_side, engine_db={k: v for k, v in db.items() if k != 'bits'},
                 bit_ops=db['bits'])
     return '\n'.join(lines), side
 
